@@ -44,15 +44,16 @@ def run(m: Model, r: Report, tier: str) -> None:
               any(ast.unparse(t) == ctr for t in (n.targets if isinstance(n, ast.Assign) else [n.target]))]
     r.check(not others, "R1", f"{fn.qualname}#counter-only-steps", f"{ctr} is modified elsewhere", loc=fn.loc)
     fors = [n for n in W.body if isinstance(n, ast.For)]
-    ok_iter = len(fors) == 1 and ast.unparse(fors[0].iter).replace(" ", "") == f"found[{ctr}-1]"
-    r.check(ok_iter, "R1", f"{fn.qualname}#level-source", f"each level must start from the stacks found at the previous level (found[{ctr} - 1])", loc=fn.loc)
+    FOUND = ast.unparse(fors[0].iter.value) if len(fors) == 1 and isinstance(fors[0].iter, ast.Subscript) else "found"
+    ok_iter = len(fors) == 1 and ast.unparse(fors[0].iter).replace(" ", "") == f"{FOUND}[{ctr}-1]"
+    r.check(ok_iter, "R1", f"{fn.qualname}#level-source", f"each level must start from the stacks found at the previous level ({FOUND}[{ctr} - 1])", loc=fn.loc)
     stackvar = ast.unparse(fors[0].target) if fors else "stack"
-    appends = [n for n in ast.walk(W) if isinstance(n, ast.Call) and ast.unparse(n.func) == f"found[{ctr}].append"]
+    appends = [n for n in ast.walk(W) if isinstance(n, ast.Call) and ast.unparse(n.func) == f"{FOUND}[{ctr}].append"]
     inner = [n for n in ast.walk(fors[0]) if isinstance(n, ast.For) and n is not fors[0]] if fors else []
     sessvar = ast.unparse(inner[0].target) if inner else "session"
     r.check(len(appends) == 1 and ast.unparse(appends[0].args[0]).replace(" ", "") == f"{stackvar}+[{sessvar}]", "R1", f"{fn.qualname}#stack-growth",
             "a found stack must be the current stack extended by exactly the probed session", loc=fn.loc)
-    reset_level = [n for n in W.body if isinstance(n, ast.Assign) and ast.unparse(n.targets[0]).replace(" ", "") == f"found[{ctr}]" and ast.unparse(n.value) == "[]"]
+    reset_level = [n for n in W.body if isinstance(n, ast.Assign) and ast.unparse(n.targets[0]).replace(" ", "") == f"{FOUND}[{ctr}]" and ast.unparse(n.value) == "[]"]
     r.check(len(reset_level) == 1, "R1", f"{fn.qualname}#level-init", "each level must start with an empty list of stacks", loc=fn.loc)
     if len(inner) != 1:
         raise AnalysisError(f"{fn.qualname}: probe loop not found")
@@ -97,7 +98,7 @@ def run(m: Model, r: Report, tier: str) -> None:
     rec_nodes = {n.id for n in g.nodes.values() if n.ast is not None and "self._recover_stack(" in ast.unparse(n.ast) and n.kind in ("cond", "stmt")}
     set_true = {n.id for n in g.nodes.values() if n.kind == "stmt" and isinstance(n.ast, ast.Assign) and ast.unparse(n.ast) == f"{flag} = True"}
     # after a positive reply (the session changed) every path back to the loop head sets the flag
-    pos = [n for n in g.nodes.values() if n.kind == "stmt" and n.ast is not None and "positive_results.append(" in ast.unparse(n.ast)]
+    pos = [n for n in g.nodes.values() if n.kind == "stmt" and n.ast is not None and ".append({'session':" in ast.unparse(n.ast) and "'error': None" in ast.unparse(n.ast)]
     found_nodes = [n for n in g.nodes.values() if n.kind == "cond" and n.ast is not None and f"{sessvar} not in {stackvar}" in ast.unparse(n.ast)]
     starts = pos + found_nodes
     if not starts:
@@ -122,7 +123,7 @@ def run(m: Model, r: Report, tier: str) -> None:
                 ctx.append(ast.unparse(a.test))
             if isinstance(a, ast.ExceptHandler) and any(x is c for x in ast.walk(a)):
                 ctx.append("except " + (ast.unparse(a.type) if a.type else "<bare>"))
-        okc = any("isinstance(resp, NegativeResponse)" in t for t in ctx) or any(t == "except TimeoutError" for t in ctx) or \
+        okc = any(m.mpat(fn, "isinstance(resp, NegativeResponse)") in m.mpat(fn, t) for t in ctx if not t.startswith("except")) or any(t == "except TimeoutError" for t in ctx) or \
             any(f"{sessvar} in self.config.skip" in t for t in ctx)
         r.check(okc, "R3", f"{fn.qualname}#continue@{'|'.join(ctx)[:60]}", "a `continue` skips the stack-recovery flag on a path where the session may have changed", loc=f"{fn.module.relpath}:{c.lineno}")
 
@@ -132,41 +133,43 @@ def run(m: Model, r: Report, tier: str) -> None:
         raise AnalysisError(f"{fn.qualname}: probe try-block not found")
     T = tries[0]
     ifs = [s for s in T.body if isinstance(s, ast.If)]
-    t0 = ast.unparse(ifs[0].test).replace(" ", "") if ifs else ""
-    r.check(len(ifs) >= 3 and t0 == "isinstance(resp,NegativeResponse)andresp.response_code==UDSErrorCodes.subFunctionNotSupported" and
-            isinstance(ifs[0].body[-1], ast.Continue) and "results.append" not in ast.unparse(ifs[0]), "R4", f"{fn.qualname}#not-available",
+    t0 = m.mtext(fn, ifs[0].test).replace(" ", "") if ifs else ""
+    r.check(len(ifs) >= 3 and t0 == "isinstance(_L,NegativeResponse)and_L.response_code==UDSErrorCodes.subFunctionNotSupported" and
+            isinstance(ifs[0].body[-1], ast.Continue) and ".append" not in ast.unparse(ifs[0]), "R4", f"{fn.qualname}#not-available",
             f"first classification is `{ast.unparse(ifs[0].test) if ifs else None}`: only subFunctionNotSupported may be discarded as 'not available'", loc=fn.loc)
-    r.check(len(ifs) >= 2 and ast.unparse(ifs[1].test) == "isinstance(resp, NegativeResponse)" and "negative_results.append(" in ast.unparse(ifs[1]) and
+    r.check(len(ifs) >= 2 and m.mtext(fn, ifs[1].test) == "isinstance(_L, NegativeResponse)" and ".append({'session':" in ast.unparse(ifs[1]) and "'error': " in ast.unparse(ifs[1]) and
             isinstance(ifs[1].body[-1], ast.Continue), "R4", f"{fn.qualname}#identified-not-entered",
             "every other negative response must be recorded as identified-but-not-entered", loc=fn.loc)
     r.check(len(ifs) >= 3 and ast.unparse(ifs[2].test).replace(" ", "") == f"self.config.thoroughor{sessvar}notin{stackvar}" and
             appends and any(a is x for a in appends for x in ast.walk(ifs[2])), "R4", f"{fn.qualname}#cycle-avoidance",
             "a positive session extends the stack unless it is already on it (or thorough)", loc=fn.loc)
     tail = [ast.unparse(s) for s in T.body[T.body.index(ifs[2]) + 1:]] if len(ifs) >= 3 else []
-    r.check(any("activated_sessions.add" in s for s in tail) and any("positive_results.append" in s for s in tail), "R4", f"{fn.qualname}#positive-recorded",
+    r.check(any(f".add({sessvar})" in s for s in tail) and any(".append({'session':" in s and "'error': None" in s for s in tail), "R4", f"{fn.qualname}#positive-recorded",
             "every positive reply must be recorded as reachable session", loc=fn.loc)
     # report: each found session listed with its stack
     r.check("self.result.append(int(session))" in ast.unparse(fn.node) or "self.result.append" in ast.unparse(fn.node), "R4", f"{fn.qualname}#result",
             "the result list is no longer filled", loc=fn.loc)
 
     # once-per-session exploration and result reporting
-    dedup = [n for n in fors[0].body if isinstance(n, ast.If) and "searched_sessions" in ast.unparse(n.test)] if fors else []
-    okd = len(dedup) == 1 and ast.unparse(dedup[0].test).replace(" ", "") == f"notself.config.thoroughand{stackvar}[-1]insearched_sessions" and isinstance(dedup[0].body[-1], ast.Continue)
-    marks = [n for n in fors[0].body if isinstance(n, ast.Expr) and ast.unparse(n).replace(" ", "") == f"searched_sessions.append({stackvar}[-1])"] if fors else []
+    dedup = [n for n in fors[0].body if isinstance(n, ast.If) and "self.config.thorough" in ast.unparse(n.test) and f"{stackvar}[-1] in " in ast.unparse(n.test)] if fors else []
+    SEARCHED = ast.unparse(dedup[0].test.values[1].comparators[0]) if len(dedup) == 1 and isinstance(dedup[0].test, ast.BoolOp) and isinstance(dedup[0].test.values[1], ast.Compare) else "searched_sessions"
+    okd = len(dedup) == 1 and ast.unparse(dedup[0].test).replace(" ", "") == f"notself.config.thoroughand{stackvar}[-1]in{SEARCHED}" and isinstance(dedup[0].body[-1], ast.Continue)
+    marks = [n for n in fors[0].body if isinstance(n, ast.Expr) and ast.unparse(n).replace(" ", "") == f"{SEARCHED}.append({stackvar}[-1])"] if fors else []
     r.check(okd and len(marks) == 1 and dedup[0].lineno < marks[0].lineno, "R4", f"{fn.qualname}#explore-each-session-once",
             "without --thorough a session is explored from its first stack only: the test `not thorough and stack[-1] in searched_sessions -> continue` "
             "followed by `searched_sessions.append(stack[-1])` changed", loc=fn.loc)
-    rep_loops = [n for n in fn.node.body if isinstance(n, ast.If) and "positive_results" in ast.unparse(n.test)]
+    POS = ast.unparse(pos[0].ast.value.func.value) if pos else "positive_results"
+    rep_loops = [n for n in fn.node.body if isinstance(n, ast.If) and POS in ast.unparse(n.test)]
     okr = False
     if len(rep_loops) == 1:
-        lp = [n for n in ast.walk(rep_loops[0]) if isinstance(n, ast.For) and "positive_results" in ast.unparse(n.iter)]
+        lp = [n for n in ast.walk(rep_loops[0]) if isinstance(n, ast.For) and POS in ast.unparse(n.iter)]
         if len(lp) == 1:
             ifs_ = [n for n in lp[0].body if isinstance(n, ast.If)]
-            okr = len(ifs_) >= 1 and ast.unparse(ifs_[0].test).replace(" ", "") == "session!=previous_session" and \
-                any(ast.unparse(x) == "previous_session = session" for x in ifs_[0].body) and \
-                any("self.result.append(int(session))" in ast.unparse(x) for x in ifs_[0].body) and \
-                "self.db_handler.insert_session_transition(session, res['stack'])" in ast.unparse(ifs_[0]) and \
-                ast.unparse(rep_loops[0].test).replace(" ", "") == "len(positive_results)>0"
+            okr = len(ifs_) >= 1 and m.mtext(fn, ifs_[0].test).replace(" ", "") == "_L!=_L" and \
+                any(m.mtext(fn, x) == "_L = _L" for x in ifs_[0].body) and \
+                any(m.has(fn, "self.result.append(int(session))", x) for x in ifs_[0].body) and \
+                m.has(fn, "self.db_handler.insert_session_transition(session, res['stack'])", ifs_[0]) and \
+                ast.unparse(rep_loops[0].test).replace(" ", "") == f"len({POS})>0"
     r.check(okr, "R4", f"{fn.qualname}#report-each-found-session-once",
             "every session with a positive result must be appended to the result exactly once (and stored with its stack)", loc=fn.loc)
 
@@ -186,7 +189,7 @@ def run(m: Model, r: Report, tier: str) -> None:
             "the database-transition fallback is not guarded by use_db: with a database from an earlier run the scan enters sessions through stored "
             "paths and reports sessions beyond the depth limit / requests skipped sessions", loc=ss.loc)
     rs = m.require_function(f"{SCAN}.SessionsScanner._recover_stack")
-    r.check(f"self.set_session_with_hooks_handling(session, use_hooks)" in ast.unparse(rs.node) and "return False" in ast.unparse(rs.node), "R6",
+    r.check(m.has(rs, "self.set_session_with_hooks_handling(session, use_hooks)") and "return False" in ast.unparse(rs.node), "R6",
             f"{rs.qualname}#raw-recovery", "stack recovery must use the same raw session change and report failure", loc=rs.loc)
 
     r.assumptions += ["the ECU changes session only on a positive DiagnosticSessionControl response"]
